@@ -135,6 +135,10 @@ Section SoilTemp.
         (tf, o_surf o :: ss)
     end.
 
+  (* ---- config.go:120: the lower-boundary temperature TBASE is the configured AnnualAverageTemperature, a constant of
+     the run (nothing else may assign it: not the crop, management or automatic-sowing tables) ---- *)
+  Definition tbase_of_config (annual_average_temperature : T) : T := annual_average_temperature.
+
   (* ---- init.go:16-20: initial linear profile between the first day's air temperature and TBASE ---- *)
   Fixpoint init_from (t00 initp : T) (i : Z) (k : nat) : list T :=
     match k with
